@@ -49,6 +49,18 @@ class AllAtoms(NamedTuple):
     lookup: dict[str, atoms.Atom]
 
 
+def _definition(atom: atoms.Atom) -> tuple[Any, ...]:
+    """What an atom defines. Two atoms with the same name are duplicates
+    unless they agree on this, i.e unless they are one and the same definition
+    (possibly listed in several components)."""
+    if isinstance(atom, atoms.Assignment):
+        # Assignments compare equal when they have the same dependencies
+        # so we need to compare the expression tree as well
+        tree = None if atom.value is None else atom.value.tree
+        return (atom, tree)
+    return (atom,)
+
+
 def gather_atoms(
     components: Sequence[BaseComponent],
 ) -> AllAtoms:
@@ -74,21 +86,22 @@ def gather_atoms(
             symbol_names.append(p.name)
             symbols[p.name] = p.symbol
             lookup[p.name] = p
-            symbol_values[p.name].add(p.value)
+            symbol_values[p.name].add(_definition(p))
         for s in component.states:
             symbol_names.append(s.name)
             symbols[s.name] = s.symbol
             lookup[s.name] = s
-            symbol_values[s.name].add(s.value)
+            symbol_values[s.name].add(_definition(s))
         for i in component.intermediates:
             symbol_names.append(i.name)
             symbols[i.name] = i.symbol
             lookup[i.name] = i
-            symbol_values[i.name].add(i.expr)
+            symbol_values[i.name].add(_definition(i))
         for st in component.state_derivatives:
             symbol_names.append(st.name)
             symbols[st.name] = st.symbol
             lookup[st.name] = st
+            symbol_values[st.name].add(_definition(st))
     return AllAtoms(symbol_names, symbol_values, symbols, lookup)
 
 
